@@ -43,6 +43,9 @@ type stmtRec struct {
 	rows   [][]driver.Value // written value tuples (INSERT/UPSERT)
 	inTx   bool
 	result []mrow
+	// explain: the statement was sent as EXPLAIN <statement> (sqlgen's
+	// WithPanicOnNoIndex mode); everything else describes <statement>
+	explain bool
 }
 
 type handleKey struct{}
@@ -394,6 +397,10 @@ func (d *mdb) parse(sqlText string, args []driver.Value) (*stmtRec, error) {
 		}
 		return nil
 	}
+	if l.peekUp() == "EXPLAIN" {
+		l.next()
+		st.explain = true
+	}
 	switch l.peekUp() {
 	case "SELECT":
 		l.next()
@@ -530,6 +537,11 @@ func copyRow(r mrow) mrow {
 // exec applies a parsed statement. Writes go to the table directly (the
 // harness uses transactions only around multi-row writes, which it commits).
 func (d *mdb) exec(st *stmtRec) (rows []mrow, affected int64, lastID int64, err error) {
+	if st.explain {
+		// the plan of a statement that uses the primary key
+		return []mrow{{"id": int64(1), "select_type": "SIMPLE", "table": st.table, "type": "ref", "possible_keys": "PRIMARY",
+			"key": "PRIMARY", "key_len": "8", "ref": "const", "rows": int64(1), "Extra": nil}}, 0, 0, nil
+	}
 	if strings.Contains(strings.ToUpper(st.sql), "INFORMATION_SCHEMA") {
 		// SELECT COLUMN_NAME FROM INFORMATION_SCHEMA.COLUMNS WHERE TABLE_SCHEMA = ? AND TABLE_NAME = ? ...
 		name := ""
@@ -727,6 +739,9 @@ func (c *mconn) QueryContext(ctx context.Context, q string, args []driver.NamedV
 	st, rows, _, _, err := c.run(ctx, q, args)
 	if err != nil {
 		return nil, err
+	}
+	if st.explain {
+		return &mrows{cols: []string{"id", "select_type", "table", "type", "possible_keys", "key", "key_len", "ref", "rows", "Extra"}, rows: rows, failAt: -1}, nil
 	}
 	switch st.kind {
 	case "COUNT":
